@@ -74,6 +74,10 @@ SPIF_TYPE(mbuffclass) SPIF_MBUFFCLASS_VAR(mbuff) = &mb_class;
 /* *INDENT-ON* */
 
 static const size_t buff_inc = 4096;
+#if defined(LIBAST_VERIF) && defined(LIBAST_VERIF_BUFF_INC)
+/* verification hook: scaled read-chunk size so chunk-boundary arithmetic is within solver reach */
+# define buff_inc ((size_t) LIBAST_VERIF_BUFF_INC)
+#endif
 
 spif_mbuff_t
 spif_mbuff_new(void)
